@@ -40,6 +40,9 @@ META = {
 }
 
 OPS = ["+", "-", "*", "/", "^", "%"]
+# operator texts one of which begins another: the scanner's choice between them must not depend on the
+# priorities of the productions
+OPS_OVERLAP = ["|", "||", "&", "&&", "+", "+="]
 
 
 def op_tables(tier, rng):
@@ -62,7 +65,7 @@ def op_tables(tier, rng):
     return out, n_exh
 
 
-def grammar_text(table, order, rule_meta=None, inherit=None):
+def grammar_text(table, order, rule_meta=None, inherit=None, ops=OPS, named=None):
     """`inherit`: (left, prio) declared on the rule; alternatives with exactly these values leave them out
     and inherit them (those with only one of the two equal leave out that one)."""
     alts = []
@@ -73,15 +76,23 @@ def grammar_text(table, order, rule_meta=None, inherit=None):
                 meta.remove("left" if left else "right")
             if prio == inherit[1]:
                 meta.remove(str(prio))
-        alts.append('E "%s" E%s' % (OPS[i], (" {%s}" % ", ".join(meta)) if meta else ""))
+        opref = ('"%s"' % ops[i]) if named is None else "OP%d" % i
+        alts.append('E %s E%s' % (opref, (" {%s}" % ", ".join(meta)) if meta else ""))
     alts += ['"(" E ")"', '"n"']
     alts = [alts[i] for i in order]
     head = "E" if rule_meta is None else "E {%s}" % rule_meta
-    return head + ": " + " | ".join(alts) + ";\n"
+    out = head + ": " + " | ".join(alts) + ";\n"
+    if named is not None:
+        # operators as declared terminals with lexical priorities of their own (these order the scanner's
+        # candidates; they say nothing about the grouping)
+        out += "terminals\n" + "".join('OP%d: "%s" {%d};\n' % (i, ops[i], named[i]) for i in range(len(table)))
+    return out
 
 
 # priority values matter as values too: 0, small, beyond CPython's small-int cache, large
-PRIO_MAPS = [lambda l: l * 3, lambda l: l - 1, lambda l: 250 + l * 5, lambda l: 1000 * l + 7]
+PRIO_MAPS = [lambda l: l * 3, lambda l: l - 1, lambda l: 250 + l * 5, lambda l: 1000 * l + 7,
+             # around the default priority 10
+             lambda l: 9 + l, lambda l: 8 + l, lambda l: 10 * l]
 
 
 def expressions(k, m, rng, cap):
@@ -107,8 +118,11 @@ def expressions(k, m, rng, cap):
 def units(tier):
     rng = random.Random(seed())
     tables, n_exh = op_tables(tier, rng)
-    us = [{"kind": "ops", "tables": ch, "seed": seed() * 1000 + i, "m": 4 if tier == "quick" else 6}
-          for i, ch in enumerate(chunks(tables, 48))]
+    us, base = [], 0
+    for i, ch in enumerate(chunks(tables, 48)):       # 48 units; `base` = index of the unit's first table
+        us.append({"kind": "ops", "tables": ch, "seed": seed() * 1000 + i, "m": 4 if tier == "quick" else 6,
+                   "base": base})
+        base += len(ch)
     specs = [s for s in gen.enum_grammars(2, 2, 3, 2, allow_cyclic=False)][:: (6 if tier == "quick" else 1)]
     us += [{"kind": "noop", "specs": [s.to_json() for s in ch], "seed": seed() * 1000 + 500 + i}
            for i, ch in enumerate(chunks(specs, 12))]
@@ -133,7 +147,7 @@ def run_unit(u):
     st = res["stats"]
     if u["kind"] == "noop":
         return run_noop(u, res, rng)
-    for ti, table0 in enumerate(u["tables"]):
+    for ti, table0 in enumerate(u["tables"], start=u.get("base", 0)):   # variants cycle over the whole family
         k = len(table0)
         order = list(range(k + 2))
         rng.shuffle(order)
@@ -152,8 +166,11 @@ def run_unit(u):
             pr_i, lf_i = table[rng.randrange(k)]
             inherit = (lf_i, pr_i)
             rule_meta = "%s, %d" % ("left" if lf_i else "right", pr_i)
-        gtxt = grammar_text(table, order, rule_meta, inherit)
-        opmap = {OPS[i]: i for i in range(k)}
+        ops = OPS_OVERLAP if ti % 4 == 3 else OPS
+        # (lexical priorities do decide between overlapping texts, by design: not combined with them)
+        named = [rng.choice([1, 5, 10, 12, 15, 20]) for _ in range(k)] if (ti % 5 == 4 and ops is OPS) else None
+        gtxt = grammar_text(table, order, rule_meta, inherit, ops=ops, named=named)
+        opmap = {ops[i]: i for i in range(k)}
         g = Grammar.from_string(gtxt)
         num = Numbering(g)
         exprs = expressions(k, u["m"], rng, 120)
@@ -175,7 +192,7 @@ def run_unit(u):
             want_t = "table " + " ".join(str(x) for x in enc[:len(enc) - 1 - 2 * len(num.terms)])
             checks = []
             for toks in exprs:
-                text = " ".join("n" if t == 0 else "(" if t == 1 else ")" if t == 2 else OPS[t - 3] for t in toks)
+                text = " ".join("n" if t == 0 else "(" if t == 1 else ")" if t == 2 else ops[t - 3] for t in toks)
                 case = dict(case0, input=text)
                 res["evaluations"] += 1
                 st["expressions"] += 1
